@@ -101,7 +101,14 @@ fn main() {
     );
     rep.bounds = json!({"threads": "2-3", "ops_per_thread": 2, "mode": "U (sleep sets, unbounded)", "drivers": ndrivers});
     let cap = if thorough { 2_000_000 } else { 200_000 };
-    let results = explore_many(drivers, Mode::U, cap, 3, 16, |d| CellDriver { flavour: d.flavour, prelude: d.prelude.clone(), programs: d.programs.clone() });
+    // deviation budget (at most one spurious compare_exchange_weak failure per execution): everywhere in the
+    // thorough tier, for the drivers with at most 3 calls in the quick tier
+    let cl = |d: &CellDriver| CellDriver { flavour: d.flavour, prelude: d.prelude.clone(), programs: d.programs.clone() };
+    let (small, large): (Vec<CellDriver>, Vec<CellDriver>) = drivers.into_iter().partition(|d| thorough || d.programs.iter().map(|p| p.len()).sum::<usize>() <= 3 && d.programs.len() == 2);
+    SPURIOUS_BUDGET.store(1, std::sync::atomic::Ordering::Relaxed);
+    let mut results = explore_many(small, Mode::U, cap, 3, 16, cl);
+    SPURIOUS_BUDGET.store(0, std::sync::atomic::Ordering::Relaxed);
+    results.extend(explore_many(large, Mode::U, cap, 3, 16, cl));
     let summary = fold_results(&mut rep, results);
     rep.extra.insert("modes".into(), summary);
     rep.assumptions = vec![
